@@ -19,7 +19,8 @@ META = dict(
          "optional z / lat+lon); one-context programs with EVERY window (starting,ending) over {None} + {t0-1d, every row time, "
          "every row time+12h, last+1d} (closed, half-open, empty, inverted, rows exactly on starting and on ending), "
          "streams {v} and {v,w}, test sets {probe}, {spike, rate_of_change}, {probe, depth-banded climatology, location}; "
-         "two-context programs over every ordered pair of windows from a coarse grid; window bounds as ISO strings and "
+         "two-context programs over every ordered pair of windows from a coarse grid; three-context programs A,B,A (the "
+         "same window in two non-adjacent places); tables with a missing (NaT) time; window bounds as ISO strings and "
          "datetime objects; front ends: PandasStream (RangeIndex / shifted ints / DatetimeIndex), NumpyStream (ndarray / "
          "dict), XarrayStream (time as dimension coordinate / as data variable), NetcdfStream, QcConfig.run. Oracle per "
          "configured (context, stream, test): exactly one result whose subset mask equals starting<=t<ending and whose "
@@ -98,7 +99,7 @@ def mask_symptom(obs_mask, it, times):
 
 def check_case(case):
     S.install_probes()
-    tab = S.table(case["n"], case["z"], case["ll"], case.get("shuffled", False))
+    tab = S.table(case["n"], case["z"], case["ll"], case.get("shuffled", False), case.get("nat", False))
     fe = case["fe"]
     contexts = case["contexts"]
     cfgd = S.make_config(contexts, case.get("style", "str"))
@@ -192,7 +193,7 @@ def check_qcconfig(case, tab, cfgd, items, nt, wk):
     from ioos_qc.config import QcConfig
 
     vs = []
-    kw = dict(inp=list(tab["v"]), tinp=alpha.dt64(tab["time"]))
+    kw = dict(inp=list(tab["v"]), tinp=S.dt64n(tab["time"]))
     if "z" in tab:
         kw["zinp"] = list(tab["z"])
     if "lat" in tab:
@@ -259,8 +260,27 @@ def two_context_programs(n):
                 yield ts_name, need, ctxs, "str"
 
 
+def three_context_programs(n):
+    """A, B, A: the same window listed in two non-adjacent places"""
+    last = S.T0 + max(n - 1, 0) * S.DAY
+    wins = [(None, None), (S.T0, S.T0 + 2 * S.DAY), (S.T0 + 2 * S.DAY, None), (None, last)]
+    m1 = dict(qartod=dict(vprobe_test=dict(code=3)))
+    m2 = dict(qartod=dict(spike_test=dict(suspect_threshold=1, fail_threshold=5)))
+    m3 = dict(qartod=dict(gross_range_test=dict(fail_span=[0, 8], suspect_span=[0, 4])))
+    for a in wins:
+        for b in wins:
+            if a == b:
+                continue
+            ctxs = [dict(start=a[0], end=a[1], streams={"v": m1}), dict(start=b[0], end=b[1], streams={"v": m2}),
+                    dict(start=a[0], end=a[1], streams={"v": m3})]
+            yield "probe", dict(z=False, ll=False), ctxs, "str"
+
+
 def tasks(tier):
     ts = []
+    for fe in S.FRONTENDS:
+        if fe != "qcconfig":
+            ts.append(("three", 4, fe))
     for n in NS[tier]:
         for fe in S.FRONTENDS:
             ts.append(("one", n, fe))
@@ -282,7 +302,7 @@ def run_task(task, acc):
         return True
 
     def gen():
-        progs = one_context_programs(n) if kind == "one" else two_context_programs(n)
+        progs = one_context_programs(n) if kind == "one" else (two_context_programs(n) if kind == "two" else three_context_programs(n))
         for ts_name, need, ctxs, style in progs:
             if not usable(ctxs):
                 continue
@@ -292,6 +312,9 @@ def run_task(task, acc):
                 if len(ctxs) > 1:
                     continue
             yield dict(n=n, z=need["z"], ll=need["ll"], fe=fe, contexts=ctxs, style=style, testset=ts_name)
+            if n >= 2 and ts_name == "probe" and fe != "xarray:coord":
+                # a row whose time is missing (NaT) satisfies no window bound
+                yield dict(n=n, z=need["z"], ll=need["ll"], fe=fe, contexts=ctxs, style=style, testset=ts_name, nat=True)
             if n >= 3 and ts_name in ("probe_z", "neigh"):
                 # the same program on a table whose time column is not monotonic
                 yield dict(n=n, z=need["z"], ll=need["ll"], fe=fe, contexts=ctxs, style=style, testset=ts_name, shuffled=True)
